@@ -91,6 +91,11 @@ func (s *Session) candidates(sc *Scenario, pos map[scriptKey]int) (ops, dels []c
 					continue
 				}
 				st := list[p]
+				if (st.Op == "send" || st.Op == "half") && s.sendFailed(rs.Rpc, end) {
+					// a legal application does not go on sending after a send failed
+					pos[k] = p + 1
+					continue
+				}
 				if st.Op == "ret" {
 					// the handler returns only after its auxiliary actor is done
 					ak := scriptKey{rs.Rpc, end, "a"}
@@ -118,6 +123,35 @@ func (s *Session) candidates(sc *Scenario, pos map[scriptKey]int) (ops, dels []c
 	return
 }
 
+// order arranges the candidates by the policy's priorities.
+func order(kind string, ops, dels []cand) []cand {
+	var cops, sops []cand
+	for _, c := range ops {
+		if c.st.End == "c" {
+			cops = append(cops, c)
+		} else {
+			sops = append(sops, c)
+		}
+	}
+	cat := func(ls ...[]cand) []cand {
+		var out []cand
+		for _, l := range ls {
+			out = append(out, l...)
+		}
+		return out
+	}
+	switch kind {
+	case "eager":
+		return cat(dels, ops)
+	case "slowsrv": // the handler side runs only when nothing else can: requests pile up at the server
+		return cat(cops, dels, sops)
+	case "slowcli": // the caller side runs only when nothing else can: responses pile up at the client
+		return cat(sops, dels, cops)
+	default: // lazy, random
+		return cat(ops, dels)
+	}
+}
+
 // runPolicy executes the scripts under the policy; it returns the number of
 // policy steps executed. stepNo numbers the steps in the log.
 func (s *Session) runPolicy(sc *Scenario, stepNo *int) int {
@@ -132,7 +166,8 @@ func (s *Session) runPolicy(sc *Scenario, stepNo *int) int {
 	n := 0
 	fire := func(at int, final bool) {
 		for i, f := range p.Faults {
-			if !fired[i] && (f.At == at || (final && f.At >= at)) {
+			// At < 0: right after the preceding fault of the list
+			if !fired[i] && (f.At == at || (final && f.At >= at) || (f.At < 0 && i > 0 && fired[i-1])) {
 				fired[i] = true
 				s.step(*stepNo, f.Step)
 				*stepNo++
@@ -147,15 +182,14 @@ func (s *Session) runPolicy(sc *Scenario, stepNo *int) int {
 		fire(n, false)
 		ops, dels := s.candidates(sc, pos)
 		var all []cand
-		switch p.Kind {
-		case "eager":
-			all = append(dels, ops...)
-		case "lazy":
-			all = append(ops, dels...)
-		default:
-			all = append(ops, dels...)
-		}
+		all = order(p.Kind, ops, dels)
 		if len(all) == 0 {
+			// nothing can move: let a goroutine held at a gate continue
+			if pk := s.parkedList(); len(pk) > 0 {
+				s.step(*stepNo, Step{Do: "release", Point: pk[0][0].(string), Sid: pk[0][1].(int64)})
+				*stepNo++
+				continue
+			}
 			break
 		}
 		pick := all[0]
@@ -175,6 +209,11 @@ func (s *Session) runPolicy(sc *Scenario, stepNo *int) int {
 		ops, dels := s.candidates(sc, pos)
 		all := append(ops, dels...)
 		if len(all) == 0 {
+			if pk := s.parkedList(); len(pk) > 0 {
+				s.step(*stepNo, Step{Do: "release", Point: pk[0][0].(string), Sid: pk[0][1].(int64)})
+				*stepNo++
+				continue
+			}
 			break
 		}
 		pick := all[0]
